@@ -1016,6 +1016,18 @@ def c05_script(i, c, cfgs):
             for bn in (1, 2):
                 ev = {"t": "Exec", "n": bn, "tok": desttok, "bn": bn, "eh": 3 + bn, "txh": "x%d" % (7 + bn), "fp": "1", "fpr": "e9"}
                 acts += [{"k": "Claim", "by": v, "chain": dest, "ev": ev} for v in ("v1", "v2", "v3")]
+    elif t == "RPair":
+        big = c["amt"] == "p255"
+        H = str(2 ** 255 + 2 ** 255 // 50) if big else "5100"
+        X = str(2 ** 255) if big else "5000"
+        send = {"k": "Send", "from": "a3" if c["both"] else "a2", "chain": chain, "dest": "e5", "denom": "hub", "amt": X, "fee": "0"}
+        for n in (1, 2):
+            rcv = "a3" if (c["both"] or n == 1) else "a2"
+            acts += claims({"t": "ToHub", "n": n, "tok": hubtok, "amt": H, "snd": "e7", "rcv": rcv, "eh": 1 + n, "txh": "x%d" % n})
+            acts += [{"k": "End"}, {"k": "Begin", "dt": 1}, dict(send, **{"from": rcv}), {"k": "End"}, {"k": "Begin", "dt": 1}]
+        acts += [{"k": "End"}, {"k": "Begin", "dt": 1}, {"k": "End"}, {"k": "Begin", "dt": 1}, {"k": "End"}, {"k": "Begin", "dt": 200}]
+        acts += claims({"t": "ToHub", "n": 3, "tok": hubtok, "amt": "40", "snd": "e7", "rcv": "a1", "eh": 5000, "txh": "x3"})
+        acts += [{"k": "End"}, {"k": "Begin", "dt": 1}, {"k": "End"}, {"k": "Begin", "dt": 1}]
     acts += [{"k": "End"}, {"k": "Blocks", "n": 2}]
     return {"id": "tot-%d" % i, "family": "totality", "cfg": cfg, "acts": acts}
 
@@ -1063,7 +1075,7 @@ def check_c05(prop, tier, seed, replay_file=None):
         if tier == "quick":
             random.Random(seed).shuffle(idx)
             # the pair cases (sums over several huge values) are few and always run
-            idx = sorted(set(idx[:900]) | {i for i in range(len(cases)) if cases[i]["t"] == "Pair"})
+            idx = sorted(set(idx[:900]) | {i for i in range(len(cases)) if cases[i]["t"] in ("Pair", "RPair")})
         scripts = [c05_script(i, cases[i], cfgs) for i in idx]
         scripts += load_static(["bulk*.ndjson", "c05*.ndjson", "attest*.ndjson", "econ*.ndjson", "fees*.ndjson"])
         # vote orders: conflicting claims, validators ahead / behind, powers changing (attest family), deposits and executions (econ)
